@@ -191,7 +191,9 @@ func RunAll(run *hlib.Run, prop string, sigPrefixes []string, n int) {
 		if !run.Mine(idx) {
 			continue
 		}
+		life.Breadcrumb(run.OutDir, "cl "+strconv.FormatUint(s, 10))
 		fails, inflight, desc, lifeLines := run1(s)
+		life.Breadcrumb(run.OutDir, "")
 		run.Case("cl " + strconv.FormatUint(s, 10) + " # " + desc)
 		hung := false
 		for _, f := range fails {
